@@ -75,6 +75,7 @@ func NewRPC(a *Apis, subChain chain.Chain) *RPC {
 		}
 	}
 	reg("ledger", a.Ledger)
+	reg("veriftest", &crashService{}) // a handler that panics: the server must contain it (see raw requests)
 	if subChain != nil {
 		reg("ledger", subscribeApi(subChain))
 	}
@@ -174,4 +175,13 @@ func clip(b []byte) string {
 		return string(b[:300]) + "…"
 	}
 	return string(b)
+}
+
+// crashService is registered beside the node's APIs: its method panics like a defective handler would (index out of
+// range); the property demands an error response and a server that goes on.
+type crashService struct{}
+
+func (s *crashService) Crash(n uint32) (int, error) {
+	a := make([]int, 4)
+	return a[int(n)], nil // n >= 4: index out of range
 }
